@@ -483,7 +483,7 @@ class Schema(dict, metaclass=LogicalMeta):
         dict.update(obj, self)
         # since self.<data> is validated
         # we directly call dict.update to avoid calling the parsing methods again
-        obj.__dict__ = self.__dict__
+        obj.__dict__.update(self.__dict__)
         return obj
 
     def clear(self):
